@@ -397,3 +397,129 @@ def cmp_operands_of(x):
         else:
             out.append(a)
     return out
+
+
+# ---------------------------------------------------------------------------------------------- window accounting (R01.9)
+def _read_places(item):
+    """places read by a statement / terminator (operands only)"""
+    out = []
+
+    def op(o):
+        if isinstance(o, dict):
+            pl = o.get("c") or o.get("m")
+            if pl is not None:
+                out.append(pl)
+    if "a" in item:
+        rv = item["a"][1]
+        for k in ("use",):
+            if k in rv:
+                op(rv[k])
+        if "bin" in rv:
+            op(rv["bin"][1]); op(rv["bin"][2])
+        if "un" in rv:
+            op(rv["un"][1])
+        if "cast" in rv:
+            op(rv["cast"][1])
+        if "agg" in rv:
+            for o in rv["agg"]["ops"]:
+                op(o)
+        if "repeat" in rv:
+            op(rv["repeat"][0])
+        if "discr" in rv:
+            out.append(rv["discr"])
+    if "call" in item:
+        for o in item.get("args", []):
+            op(o)
+    if "switch" in item:
+        op(item["switch"])
+    return out
+
+
+def rule_window_accounting(ctx, cfg, r):
+    """The dictionary is a 32 KiB ring shared by history and lookahead: after new input has been copied in (lookahead_size grows), the
+    amount of valid history, dict.size, must be clamped to LZ_DICT_SIZE - lookahead_size before it is used again to admit a match
+    distance — otherwise a distance can point at ring bytes that the new input has just overwritten.  Must-pass-through rule on the
+    CFG: every path from a statement that increases `lookahead_size` to a distance-admitting use of `dict.size` passes the clamp."""
+    from mir import Place, callee_name
+    from rules.inflate_core import local_expr
+    c = ctx.crate(cfg)
+    E = ctx.effects(cfg)
+    SIZE = c.const_int("deflate::core::LZ_DICT_SIZE")
+    for fname in ("deflate::core::compress_fast", "deflate::core::compress_normal"):
+        f = c.fn(fname)
+        ctx.touched(f)
+        la = {i for i in range(len(f.locals)) if f.local_name(i) == "lookahead_size"}
+
+        def is_size(pl):
+            return any(cl[0] == "loc" and cl[1].endswith("DictOxide") and cl[2] == "size" for cl in E.classify(f, Place(pl)))
+        size_stores = {(bb, i) for bb, i, s in stores_to(E, f, "DictOxide", "size")}
+        stored_from = set()        # locals whose value is stored into dict.size
+        for bb, i in size_stores:
+            for pl in _read_places(f.blocks[bb]["s"][i]):
+                if not pl["p"]:
+                    stored_from.add(pl["l"])
+        refills, clamps, uses = [], [], []
+        for bb, blk in enumerate(f.blocks):
+            for i, s in enumerate(blk["s"]):
+                if "a" in s and not s["a"][0]["p"] and s["a"][0]["l"] in la and "bin" in s["a"][1] and s["a"][1]["bin"][0] in ("Add", "AddWithOverflow"):
+                    ops = s["a"][1]["bin"][1:3]
+                    if any((o.get("c") or o.get("m") or {}).get("l") in la and not (o.get("c") or o.get("m"))["p"] for o in ops if isinstance(o, dict) and ("c" in o or "m" in o)):
+                        refills.append((bb, i))
+                if "a" in s and "bin" in s["a"][1] and s["a"][1]["bin"][0] in ("Ne", "Eq"):
+                    ops = s["a"][1]["bin"][1:3]
+                    if any(isinstance(o, dict) and (o.get("c") or o.get("m")) is not None and is_size(o.get("c") or o.get("m")) for o in ops) and \
+                            any(isinstance(o, dict) and "k" in o and o["k"].get("int") in (0, "0") for o in ops):
+                        uses.append((bb, i, "dict.size != 0 (run-length look-back)", s.get("sp")))
+            t = blk["t"]
+            if "call" in t and callee_name(t["call"]).endswith("cmp::min"):
+                args = [local_expr(c, f, bb, a) for a in t["args"]]
+                reads_size = any("DictOxide" in repr(a) and "size" in repr(a) for a in args) or \
+                    any((a.get("c") or a.get("m")) is not None and is_size(a.get("c") or a.get("m")) for a in t["args"] if isinstance(a, dict))
+                # operands may be temporaries copied from dict.size in this block
+                if not reads_size:
+                    for s in blk["s"]:
+                        if any(is_size(pl) for pl in _read_places(s)):
+                            reads_size = True
+                if not reads_size:
+                    continue
+                def is_clamp_arg(a):
+                    return a[0] == "bin" and a[1] == "Sub" and is_const(a[2]) and const_val(a[2]) == SIZE and a[3] == ("var", "lookahead_size")
+                dest = t["dest"]["l"] if not t["dest"]["p"] else None
+                if any(is_clamp_arg(a) for a in args) and dest in stored_from:
+                    clamps.append(bb)
+                elif dest in stored_from:
+                    pass            # growth: dict.size = min(dict.size + n, LZ_DICT_SIZE)
+                else:
+                    uses.append((bb, len(blk["s"]), "min(dict.size, ..) as a distance bound", t.get("sp")))
+        if not refills or not clamps or not uses:
+            r.fail(f.name, "window/anchors", "expected refill (%d), clamp (%d) and distance-admission (%d) sites in %s" % (len(refills), len(clamps), len(uses), fname.split("::")[-1]))
+            continue
+        bad = []
+        for rb, ri in refills:
+            # blocks reachable from the refill statement without passing a clamp block
+            start = [rb]
+            seen = set()
+            work = list(f.succs(rb)) if rb not in clamps else []
+            # uses later in the same block as the refill
+            for ub, ui, what, sp in uses:
+                if ub == rb and ui > ri and rb not in clamps:
+                    bad.append((rb, ub, what, sp))
+            while work:
+                b = work.pop()
+                if b in seen:
+                    continue
+                seen.add(b)
+                if b in clamps:
+                    continue
+                work.extend(f.succs(b))
+            for ub, ui, what, sp in uses:
+                if ub in seen and ub not in clamps:
+                    bad.append((rb, ub, what, sp))
+        if bad:
+            rb, ub, what, sp = bad[0]
+            r.fail(f.name, "window/clamp", "%s: after lookahead_size is increased (bb%d) the use `%s` (bb%d) can be reached without "
+                   "`dict.size = min(LZ_DICT_SIZE - lookahead_size, dict.size)` in between: a match may be admitted into ring bytes the new "
+                   "input has overwritten" % (fname.split("::")[-1], rb, what, ub), where=sp)
+        else:
+            r.ok(f.name, "window/clamp", "%d refill site(s), %d clamp(s), %d distance-admitting use(s): every refill -> use path passes a clamp"
+                 % (len(refills), len(clamps), len(uses)))
